@@ -44,6 +44,8 @@ type Contract struct {
 	Lets      []LetDef
 	Line      string
 	Opaque    bool // callers never inline
+	Iface     bool // contract of an interface method
+	ifaceEff  *effectSet
 }
 
 type LetDef struct {
@@ -87,12 +89,14 @@ type SpecSet struct {
 	Axioms    []*Axiom
 	Lemmas    []*Lemma
 	FuncTypes map[string]*Contract // by type name "biscuit.AuthorizerOption"
+	Ifaces    map[string]*Contract // interface-method contracts: "datalog.BinaryOpFunc.Eval"
+	IfaceOrder []string
 	RawSMT    []string
 	Files     []string
 }
 
 func newSpecSet() *SpecSet {
-	return &SpecSet{Contracts: map[string]*Contract{}, Ghosts: map[string]*GhostFunc{}, FuncTypes: map[string]*Contract{}}
+	return &SpecSet{Contracts: map[string]*Contract{}, Ghosts: map[string]*GhostFunc{}, FuncTypes: map[string]*Contract{}, Ifaces: map[string]*Contract{}}
 }
 
 // readSpecFile parses the //@ lines of one file. pkg is the short package name
@@ -138,9 +142,13 @@ func (ss *SpecSet) readSpecFile(path, pkg string) error {
 		kw, rest := splitWord(line)
 		perr := func(e error) error { return fmt.Errorf("%s: %v (in %q)", where, e, line) }
 		switch kw {
-		case "func", "extern", "functype":
+		case "func", "extern", "functype", "iface":
 			curLemma = nil
-			c, err := parseHeader(rest, pkg, kw)
+			hk := kw
+			if kw == "iface" {
+				hk = "func"
+			}
+			c, err := parseHeader(rest, pkg, hk)
 			if err != nil {
 				return perr(err)
 			}
@@ -148,6 +156,17 @@ func (ss *SpecSet) readSpecFile(path, pkg string) error {
 			c.Pkg = pkg
 			c.ModAny = true
 			c.Loops = map[int]*LoopSpec{}
+			if kw == "iface" {
+				// contract of an interface method: used at invoke sites; every
+				// implementing method is verified against it (behavioural subtyping)
+				c.ModAny = false
+				c.ModNothing = true
+				c.Iface = true
+				ss.Ifaces[c.Name] = c
+				ss.IfaceOrder = append(ss.IfaceOrder, c.Name)
+				cur = c
+				break
+			}
 			if kw == "extern" || kw == "functype" {
 				// assumed contracts state their frame: no clause = modifies nothing
 				c.Extern = kw == "extern"
